@@ -661,6 +661,27 @@ pub fn rejected_update_released(case: &Case, pre: &SeqState, out: &RunOut) -> bo
     false
 }
 
+/// The operation sets in which the two listed findings of the parallel runs were first seen.
+fn parallel_finding_cases() -> Vec<Case> {
+    let d = |name: u8, ukeys: Vec<u8>| DocSpec { name, age: 1, score: 0, tags: vec![], opt: None, ukeys, attrs: vec![], body: vec![1], emb: 0 };
+    vec![
+        // pre {1: n4}, {2: n2, ukeys [u1]}; three adds that want u1 || update(2, name -> n4 (taken), ukeys -> [])
+        Case {
+            pre: vec![d(4, vec![]), d(2, vec![1])],
+            ops: vec![COp::Update { id: 1, spec: d(4, vec![]), mask: 0b100001 }, COp::Add(d(0, vec![1])), COp::Add(d(1, vec![1])), COp::Add(d(3, vec![1]))],
+            schedule: vec![],
+            cold: false,
+        },
+        // pre {1: n2}; three adds{n2 (taken), [u2]} || add{n4, [u2]}
+        Case {
+            pre: vec![d(2, vec![])],
+            ops: vec![COp::Add(d(4, vec![2])), COp::Add(d(2, vec![2])), COp::Add(d(2, vec![2, 3])), COp::Add(d(2, vec![2, 4]))],
+            schedule: vec![],
+            cold: false,
+        },
+    ]
+}
+
 /// One parallel execution of `case` and its verdict.
 pub fn run_parallel_once(case: &Case, ctx: &mut CaseCtx) -> Result<(), String> {
     let (mut out, pre) = execute_parallel(case)?;
@@ -929,6 +950,18 @@ pub fn run(r: &mut Runner) {
         (60_000, 1_500_000),
         || case_strategy(4),
         run_generated,
+    );
+    r.sub_enum(
+        "parallel_listed_findings",
+        "the two reproductions of the listed findings of the parallel runs (a rejected update released a unique value a concurrent writer took; a writer refused for a value another writer held only transiently), each repeated up to 1500 times on the multi-threaded runtime until it shows; non-trivial = the finding showed",
+        true,
+        parallel_finding_cases(),
+        |case, ctx| {
+            for _ in 0..1500 {
+                run_parallel_once(case, ctx)?;
+            }
+            Ok(())
+        },
     );
     r.sub(
         "parallel_sets_stress",
